@@ -18,6 +18,9 @@ CHECKS = {
  "C09": ("exploration", "reference encoders (own LZW, ASCII85, PNG predictors, stored deflate) generate the inputs over chains of 1-3 filters and all parameter forms; lopdf's decoders must return the original bytes; exhaustive sweeps of all 2^24 Paeth triples and all final ASCII85 groups; model-based op sequences for the compression laws",
          "trusted: REF-FILT encoders (unit-tested against own decoders, weezl and flate2), flate2 as deflate primitive",
          "property-based testing (proptest) against reference encoders, exhaustive enumeration of small spaces, model-based op sequences"),
+ "C02": ("exploration", "an independent reference writer renders random abstract documents with every lexical/structural freedom of ISO 32000-1 7.2-7.5 randomised; lopdf must load exactly the abstract objects, trailer and version; every generated file is cross-checked by the strict reader first",
+         "trusted: REF-W (Appendix B of DESIGN.md) and STRICT-R, which validate each other on every case; CANON with the two stated equivalences (null entry = absent, indirect Length = integer)",
+         "differential testing against an independent reference writer, driven by proptest (choice-tape style generation)"),
 }
 NA = {}
 def main():
